@@ -666,22 +666,21 @@ class AttributeOverwrite(ValueError):
 def deep_clone(value: Any) -> Any:
     """Create a copy of a value for inheritance.
 
-    For most values, we do a deep copy. However, for lists containing
-    PropertyTreeNode objects (like Task references in depends), we do
-    a shallow copy to preserve object identity.
+    Containers (lists, tuples, dicts) are copied, whatever they hold is copied too - except
+    PropertyTreeNode objects (a task in a `depends` list, or inside the dict of a dependency with
+    options): those are references into the project tree and keep their identity. Copying one
+    would give the heir a dependency on a clone that is never scheduled.
     """
     import copy
 
-    # For lists, check if they contain PropertyTreeNode objects
+    if hasattr(value, "propertySet"):
+        return value
     if isinstance(value, list):
-        if value and hasattr(value[0], "propertySet"):
-            # This is a list of PropertyTreeNode objects (like tasks in depends)
-            # Do a shallow copy to preserve object identity
-            return list(value)
-        else:
-            # Regular list, deep copy
-            return copy.deepcopy(value)
-
+        return [deep_clone(item) for item in value]
+    if type(value) is tuple:
+        return tuple(deep_clone(item) for item in value)
+    if isinstance(value, dict):
+        return {key: deep_clone(item) for key, item in value.items()}
     return copy.deepcopy(value)
 
 
